@@ -333,6 +333,58 @@ inline bool match_with_field(const std::string &exp, size_t ei, const std::strin
     return ai == act.size();
 }
 
+// Relaxed comparison for texts produced by the pretty formatter: its layout (time, type letter, thread
+// tag, category, alignment) is not laid down by any property, so everything between the text that
+// precedes the '\x02' marker and the message text that follows the header is accepted. *header
+// receives what stood there; the thread tag "T<n> " is extracted from it if present.
+inline bool match_pretty_relaxed(const std::string &exp, const std::string &act, std::string *tag)
+{
+    size_t mark = exp.find('\x02');
+    if (mark == std::string::npos)
+        return exp == act;
+    // expected = pre + time/letter (fixed part before the marker belongs to the header too) ...
+    // find where the header starts: the reference header begins 22 characters before the marker
+    // ("dd.MM.yyyy hh:mm:ss X "); everything before that is outer text (e.g. "F7<")
+    size_t hstart = mark >= 22 ? mark - 22 : 0;
+    std::string pre = exp.substr(0, hstart);
+    // after the marker the reference has "[cat] " + padding + message + outer suffix: the message
+    // text is what must be found; take the part after the category/padding
+    std::string rest = exp.substr(mark + 1);
+    if (!rest.empty() && rest[0] == '[') {
+        size_t close = rest.find("] ");
+        if (close != std::string::npos)
+            rest = rest.substr(close + 2);
+    }
+    size_t sp = 0;
+    while (sp < rest.size() && rest[sp] == ' ' && sp < 15)
+        sp++;
+    std::string tail_min = rest.substr(sp); // message + suffix, leading padding dropped (it may be part of the message: try both)
+    auto try_tail = [&](const std::string &tail) {
+        if (act.size() < pre.size() + tail.size())
+            return false;
+        if (act.compare(0, pre.size(), pre) != 0)
+            return false;
+        if (act.compare(act.size() - tail.size(), tail.size(), tail) != 0)
+            return false;
+        std::string header = act.substr(pre.size(), act.size() - pre.size() - tail.size());
+        if (tag) {
+            *tag = "0";
+            for (size_t i = 0; i + 2 < header.size(); i++)
+                if (header[i] == 'T' && isdigit((unsigned char)header[i + 1]) && (i == 0 || header[i - 1] == ' ')) {
+                    size_t j = i + 1;
+                    while (j < header.size() && isdigit((unsigned char)header[j]))
+                        j++;
+                    if (j < header.size() && header[j] == ' ') {
+                        *tag = header.substr(i, j - i);
+                        break;
+                    }
+                }
+        }
+        return true;
+    };
+    return try_tail(rest) || try_tail(tail_min);
+}
+
 inline std::string clip(const std::string &s, size_t n = 160)
 {
     std::string o;
